@@ -12,6 +12,7 @@ import (
 	"github.com/mdlayher/corerad/internal/plugin"
 	"github.com/mdlayher/corerad/internal/system"
 	"github.com/mdlayher/corerad/internal/verifh"
+	"github.com/mdlayher/corerad/internal/verifw"
 	"github.com/mdlayher/ndp"
 )
 
@@ -19,20 +20,20 @@ import (
 // (by repetition in the sequences), several hosts in one /64 and the edges of fe80::/10.
 func c13Pool() []system.IP {
 	return []system.IP{
-		wIP("fd00:1::1/64", ""),                        // 0 ULA
-		wIP("fd00:1::2/64", "f"),                       // 1 second host in the same /64
-		wIP("2001:db8:1::1/64", "m"),                   // 2 GUA
-		wIP("2001:db8:1::5/64", "t"),                   // 3 temporary host in the /64 of 2
-		wIP("2001:db8:2::1/64", "n"),                   // 4 tentative
-		wIP("2001:db8:2:0:ffff:ffff:ffff:ffff/64", ""), // 5 eligible host in the /64 of 4, all host bits set
-		wIP("2001:db8:3::1/48", ""),                    // 6 other length
-		wIP("2001:db8:4::1/128", "s"),                  // 7 host address
-		wIP("fe80::1/64", "f"),                         // 8 link-local
-		wIP("febf:ffff::1/64", ""),                     // 9 last link-local /64s
-		wIP("fec0::1/64", ""),                          // 10 first address above fe80::/10 (eligible)
-		wIP("192.0.2.1/24", ""),                        // 11 IPv4
-		wIP("2001:db8::/64", "d"),                      // 12 deprecated (still advertised), already masked, sorts first among GUA
-		wIP("fd00:0:ffff:ffff::1/64", "sd"),            // 13 sorts before fd00:1::
+		verifw.IP("fd00:1::1/64", ""),                        // 0 ULA
+		verifw.IP("fd00:1::2/64", "f"),                       // 1 second host in the same /64
+		verifw.IP("2001:db8:1::1/64", "m"),                   // 2 GUA
+		verifw.IP("2001:db8:1::5/64", "t"),                   // 3 temporary host in the /64 of 2
+		verifw.IP("2001:db8:2::1/64", "n"),                   // 4 tentative
+		verifw.IP("2001:db8:2:0:ffff:ffff:ffff:ffff/64", ""), // 5 eligible host in the /64 of 4, all host bits set
+		verifw.IP("2001:db8:3::1/48", ""),                    // 6 other length
+		verifw.IP("2001:db8:4::1/128", "s"),                  // 7 host address
+		verifw.IP("fe80::1/64", "f"),                         // 8 link-local
+		verifw.IP("febf:ffff::1/64", ""),                     // 9 last link-local /64s
+		verifw.IP("fec0::1/64", ""),                          // 10 first address above fe80::/10 (eligible)
+		verifw.IP("192.0.2.1/24", ""),                        // 11 IPv4
+		verifw.IP("2001:db8::/64", "d"),                      // 12 deprecated (still advertised), already masked, sorts first among GUA
+		verifw.IP("fd00:0:ffff:ffff::1/64", "sd"),            // 13 sorts before fd00:1::
 	}
 }
 
@@ -42,7 +43,7 @@ func TestVerifC13(t *testing.T) {
 	defer out.Close()
 
 	emit := func(id string, bits int, ips []system.IP, mode string, r *verifh.Rand, tags []string) {
-		valid, pref, dep, epoch, now := wLifetimes(r)
+		valid, pref, dep, epoch, now := verifw.Lifetimes(r)
 		onlink, auto := r.Bool(), r.Bool()
 		p := &plugin.Prefix{
 			Auto: true, Prefix: netip.PrefixFrom(netip.IPv6Unspecified(), bits),
@@ -51,7 +52,7 @@ func TestVerifC13(t *testing.T) {
 			Deprecated: dep, Epoch: time.Unix(0, epoch),
 			TimeNow: func() time.Time { return time.Unix(0, now) },
 		}
-		addrsCoq := verifh.Some(wIPsCoq(ips))
+		addrsCoq := verifh.Some(verifw.IPsCoq(ips))
 		switch mode {
 		case "ok":
 			in := append([]system.IP(nil), ips...)
@@ -68,10 +69,10 @@ func TestVerifC13(t *testing.T) {
 		if err != nil && len(ra.Options) != 0 {
 			c.ImplViolation = "Apply returned an error but left options in the RA"
 		}
-		obsCoq, obsJ := wResult(ra, err)
+		obsCoq, obsJ := verifw.Result(ra, err)
 		c.Coq = verifh.App("mkCase", verifh.N(uint64(bits)), verifh.B(onlink), verifh.B(auto), verifh.Z(valid), verifh.Z(pref),
 			verifh.B(dep), verifh.Z(epoch), verifh.Z(now), addrsCoq, obsCoq)
-		c.Input = map[string]any{"bits": bits, "addrs": wIPsJSON(ips), "source": mode, "onlink": onlink, "autonomous": auto,
+		c.Input = map[string]any{"bits": bits, "addrs": verifw.IPsJSON(ips), "source": mode, "onlink": onlink, "autonomous": auto,
 			"valid_ns": valid, "preferred_ns": pref, "deprecated": dep, "epoch_ns": epoch, "now_ns": now}
 		c.Observed = obsJ
 		out.Emit(c)
@@ -83,8 +84,8 @@ func TestVerifC13(t *testing.T) {
 	if verifh.Thorough() {
 		maxLen = 4
 	}
-	wSeqs(len(pool), maxLen, func(seq []int) {
-		id := "c13-seq-" + wSeqID(seq)
+	verifw.Seqs(len(pool), maxLen, func(seq []int) {
+		id := "c13-seq-" + verifw.SeqID(seq)
 		if !out.Wants(id) {
 			return
 		}
@@ -93,7 +94,7 @@ func TestVerifC13(t *testing.T) {
 			ips = append(ips, pool[i])
 		}
 		tag := "stream:subset-permutation"
-		if !wDistinct(seq) {
+		if !verifw.Distinct(seq) {
 			tag = "stream:with-duplicates"
 		}
 		emit(id, 64, ips, "ok", verifh.NewRand(verifh.Seed(), id), []string{tag})
@@ -150,7 +151,7 @@ func TestVerifC13(t *testing.T) {
 				if r.Chance(60) {
 					l = bits
 				}
-				ip.Address = netip.PrefixFrom(wAddr16(verifh.Pick(r, nets), lo), l)
+				ip.Address = netip.PrefixFrom(verifw.Addr16(verifh.Pick(r, nets), lo), l)
 			}
 			if r.Chance(40) {
 				ip.Deprecated, ip.ManageTemporaryAddresses, ip.StablePrivacy = r.Chance(20), r.Chance(20), r.Chance(20)
